@@ -4,6 +4,9 @@ AST extraction (the working tree's source text, not the imported module) of
 
   * `checksum`                       -> `cksum : CksumDef`
   * `IpmbHeaderReq.encode`           -> `reqHeaderBytes : List Term`
+  * `IpmbHeaderRsp.encode`           -> `rspHeaderBytes : List Term`
+  * `IpmbHeaderRsp.from_req_header`  -> `rspFromReq : List (Fld × Expr)` (response attribute := expression over the
+                                        REQUEST header's attributes)
   * `IpmbHeaderRsp.decode`           -> `rspHeaderFields : List (Fld × Expr)`, `rspIgnored`
   * `rx_filter`                      -> `rxChecks : List Check`, `rxDefaults : Flags`
   * call sites of `rx_filter` in pyipmi/interfaces/*.py -> which keyword flags transports pass
@@ -173,17 +176,18 @@ def t_checksum(fn):
     return init, step, ret
 
 
-def t_req_encode(fn):
+def t_req_encode(fn, cls='IpmbHeaderReq'):
+    """`encode` of IpmbHeaderReq / IpmbHeaderRsp: data = array('B'); data.append(x)...; return py3_array_tobytes(data)"""
     names, dfl = _args(fn)
     if names != ['self'] or dfl:
-        _bad('IpmbHeaderReq.encode signature', fn)
+        _bad('%s.encode signature' % cls, fn)
     b = _body(fn)
     if len(b) < 3:
-        _bad('IpmbHeaderReq.encode body', fn)
+        _bad('%s.encode body' % cls, fn)
     s0 = b[0]
     if not (isinstance(s0, ast.Assign) and len(s0.targets) == 1 and isinstance(s0.targets[0], ast.Name)
             and _array_b(s0.value)):
-        _bad("IpmbHeaderReq.encode: data = array('B')", s0)
+        _bad("%s.encode: data = array('B')" % cls, s0)
     data = s0.targets[0].id
     out = []
     for st in b[1:-1]:
@@ -191,14 +195,39 @@ def t_req_encode(fn):
                 and isinstance(st.value.func, ast.Attribute) and st.value.func.attr == 'append'
                 and isinstance(st.value.func.value, ast.Name) and st.value.func.value.id == data
                 and len(st.value.args) == 1 and not st.value.keywords):
-            _bad('IpmbHeaderReq.encode: statement other than data.append(x)', st)
+            _bad('%s.encode: statement other than data.append(x)' % cls, st)
         cx = Ctx(attrs={'self': 'self'}, data=data, limit=len(out))
         out.append(term(st.value.args[0], cx))
     r = b[-1]
     if not (isinstance(r, ast.Return) and _is_call(r.value, 'py3_array_tobytes', 1)
             and isinstance(r.value.args[0], ast.Name) and r.value.args[0].id == data):
-        _bad('IpmbHeaderReq.encode: return', r)
+        _bad('%s.encode: return' % cls, r)
     return out
+
+
+def t_from_req_header(fn):
+    """`IpmbHeaderRsp.from_req_header(self, req_header)`: a sequence of `self.<attr> = <expression over
+    req_header.<attr> and literals>`, every header attribute assigned exactly once.  The right-hand sides read
+    the REQUEST header only (never `self`), so the order of the assignments does not matter."""
+    names, dfl = _args(fn)
+    if len(names) != 2 or names[0] != 'self' or dfl:
+        _bad('IpmbHeaderRsp.from_req_header signature', fn)
+    cx = Ctx(attrs={names[1]: 'self'})
+    fields = []
+    for st in _body(fn):
+        if not (isinstance(st, ast.Assign) and len(st.targets) == 1 and isinstance(st.targets[0], ast.Attribute)
+                and isinstance(st.targets[0].value, ast.Name) and st.targets[0].value.id == 'self'):
+            _bad('IpmbHeaderRsp.from_req_header: statement other than self.x = expr', st)
+        attr = st.targets[0].attr
+        if attr not in FLD:
+            _bad('IpmbHeaderRsp.from_req_header: unknown attribute %s' % attr, st)
+        if FLD[attr] in [f for f, _ in fields]:
+            _bad('IpmbHeaderRsp.from_req_header assigns %s twice' % attr, st)
+        fields.append((FLD[attr], expr(st.value, cx)))
+    missing = sorted(set(FLD.values()) - set(f for f, _ in fields))
+    if missing:
+        _bad('IpmbHeaderRsp.from_req_header leaves %s unset' % missing, fn)
+    return fields
 
 
 def t_rsp_decode(fn):
@@ -518,8 +547,10 @@ def extract():
     init = method('IpmbHeader', '__init__')
     enc = method('IpmbHeaderReq', 'encode')
     dec = method('IpmbHeaderRsp', 'decode')
-    if init is None or enc is None or dec is None:
-        _bad('IpmbHeader.__init__ / IpmbHeaderReq.encode / IpmbHeaderRsp.decode missing')
+    rsp_enc = method('IpmbHeaderRsp', 'encode')
+    from_req = method('IpmbHeaderRsp', 'from_req_header')
+    if init is None or enc is None or dec is None or rsp_enc is None or from_req is None:
+        _bad('IpmbHeader.__init__ / IpmbHeaderReq.encode / IpmbHeaderRsp.encode / .decode / .from_req_header missing')
     if method('IpmbHeaderRsp', '__init__') is not None:
         _bad('IpmbHeaderRsp overrides __init__')
     bases = [b.id for b in classes['IpmbHeaderRsp'].bases if isinstance(b, ast.Name)]
@@ -528,13 +559,16 @@ def extract():
     t_header_init(init)
     init_, step, ret = t_checksum(funcs['checksum'])
     req_bytes = t_req_encode(enc)
+    rsp_bytes = t_req_encode(rsp_enc, 'IpmbHeaderRsp')
+    rsp_from_req = t_from_req_header(from_req)
     rsp_fields, rsp_ignored = t_rsp_decode(dec)
     checks, defaults = t_rx_filter(funcs['rx_filter'])
     sites = t_call_sites()
     for fname, line, kws in sites:
         if 'rs_lun' in kws:
             raise TieBroken('%s:%d passes rs_lun= to rx_filter (the responder-LUN check is mandatory)' % (fname, line))
-    return {'cksum': (init_, step, ret), 'req_bytes': req_bytes, 'rsp_fields': rsp_fields,
+    return {'cksum': (init_, step, ret), 'req_bytes': req_bytes, 'rsp_bytes': rsp_bytes, 'rsp_from_req': rsp_from_req,
+            'rsp_fields': rsp_fields,
             'rsp_ignored': rsp_ignored, 'checks': checks, 'defaults': defaults, 'sites': sites,
             'send': t_send_message(), 'recognition': t_recognition(funcs)}
 
@@ -552,6 +586,14 @@ def render(x):
     L.append('')
     L.append('/-- `IpmbHeaderReq.encode`: the appended bytes, in order -/')
     L.append('def reqHeaderBytes : List Term := [\n  %s\n]' % ',\n  '.join(x['req_bytes']))
+    L.append('')
+    L.append('/-- `IpmbHeaderRsp.encode`: the appended bytes, in order -/')
+    L.append('def rspHeaderBytes : List Term := [\n  %s\n]' % ',\n  '.join(x['rsp_bytes']))
+    L.append('')
+    L.append('/-- `IpmbHeaderRsp.from_req_header(req_header)`: attribute of the response header := expression over the\n'
+             'REQUEST header (`.self f` stands for `req_header.<f>`) -/')
+    L.append('def rspFromReq : List (Fld × Expr) := [\n  %s\n]' % ',\n  '.join(
+        '(.%s, %s)' % fe for fe in x['rsp_from_req']))
     L.append('')
     L.append('/-- `IpmbHeaderRsp.decode`: attribute := expression over the received bytes -/')
     L.append('def rspHeaderFields : List (Fld × Expr) := [\n  %s\n]' % ',\n  '.join(
